@@ -109,6 +109,29 @@ pub fn run(id: &str) -> i32 {
             let cu = Curve::from(&acp);
             cu.number_arrivals(d(6)) < acp.number_arrivals(d(6))
         }
+        // KF17: ros2::bw::rta_subchain never returns in a checked build when no callback ever produces a step (end of chain
+        // with arrival bound Never): the debug-only brute-force step enumeration `(0..).filter(..).peekable().peek()` searches
+        // forever.  The witness runs the call in a thread and waits for two seconds.
+        "KF17" => {
+            use response_time_analysis::ros2;
+            let (tx, rx) = std::sync::mpsc::channel();
+            std::thread::spawn(move || {
+                let ab = Never {}; let cm = wcet::Scalar::new(s(1));
+                let wl = vec![ros2::bw::Callback::new(d(5), &ab, &cm, ros2::rr::CallbackType::Timer)];
+                let sc = vec![&wl[0]];
+                let r = ros2::bw::rta_subchain(&supply::Dedicated::new(), &wl, &sc, d(10));
+                let _ = tx.send(r.is_ok());
+            });
+            rx.recv_timeout(std::time::Duration::from_secs(2)).is_err()
+        }
+        // KF18: limited-preemptive EDF with a task under analysis that never releases a job: `self_interference - rem_cost` underflows
+        "KF18" => {
+            use response_time_analysis::{demand::RBF, edf};
+            let other = RBF::new(Sporadic::new(d(5), d(6)), wcet::Scalar::new(s(1)));
+            let lp = vec![edf::limited_preemptive::InterferingTask { rbf: &other, deadline: d(22), max_np_segment: s(1) }];
+            let r = catch_unwind(|| edf::limited_preemptive::dedicated_uniproc_rta(&edf::limited_preemptive::TaskUnderAnalysis { wcet: wcet::Scalar::new(s(2)), arrivals: &Never {}, deadline: d(38), last_np_segment: s(2) }, &lp, d(173)));
+            r.is_err()   // checked build: panic; a release build wraps silently
+        }
         _ => { eprintln!("unknown witness {}", id); return 2; }
     };
     println!("{} {}", id, if reproduces { "reproduces" } else { "does not reproduce" });
